@@ -130,6 +130,22 @@ TagMapOk ==
                 got == SelectSeq(otags[j], LAMBDA t : t[2] \in PKeys)
             IN SameBag(want, got)
 
+(* Value-based tag placement, for blocks whose output samples are copies of  *)
+(* input samples (flag tagvalue; inputs logged): every carried tag sits on   *)
+(* an output sample equal to the input sample it was attached to, and no     *)
+(* input tag comes out more than once per output.                            *)
+TagValueOk ==
+  IF ~Flag(hdr, "tagvalue") THEN TRUE
+  ELSE \A j \in 1 .. hdr.nout :
+         LET got == SelectSeq(otags[j], LAMBDA t : t[2] \in PKeys) IN
+         /\ \A i \in 1 .. Len(got) :
+              \E q \in 1 .. Len(hdr.intags[1]) :
+                 LET it == hdr.intags[1][q] IN
+                 /\ it[2] = got[i][2] /\ it[3] = got[i][3]
+                 /\ got[i][1] + 1 <= Len(outn[j])
+                 /\ outn[j][got[i][1] + 1] = hdr.inputs[1][it[1] + 1]
+         /\ \A i1, i2 \in 1 .. Len(got) : (i1 # i2) => <<got[i1][2], got[i1][3]>> # <<got[i2][2], got[i2][3]>>
+
 (* --- C10: independent functional oracle (BlockFns) *)
 TagPairs(j, key) == {<<otags[j][i][1], otags[j][i][3]>> : i \in {x \in 1 .. Len(otags[j]) : otags[j][x][2] = key}}
 Flatten(pkts) == Concat([i \in 1 .. Len(pkts) |-> <<-1>> \o pkts[i]])
@@ -204,6 +220,7 @@ Final(e) ==
   /\ e.ev = "final"
   /\ Chk(e.settled = TRUE, "unsettled")
   /\ Chk(TagMapOk, "tagmap")
+  /\ Chk(TagValueOk, "tag_value")
   /\ Chk(FnOutOk, "fn_out")
   \* C16: a finite source ends with EOF, once everything is out
   /\ Chk(Flag(hdr, "finite_source") => (lastW # NoW /\ lastW.verdict.kind = "eof"), "eof_missing")
